@@ -239,11 +239,9 @@ theorem copyLoop_ids (nc : NC) (ids : List Int)
 def NoEmpty (v : List Entry) : Prop := ∀ e ∈ v, e.subs ≠ []
 
 /-- none of the shortcuts of extract_reqs applies -/
-def SubsetPath (nc : NC) (num : Int) (st : Option (List Int)) : Prop :=
+def SubsetPath (nc : NC) (num : Int) (ids : List Int) (st : Option (List Int)) (V : Variant := {}) : Prop :=
   ¬ (num = NC_REQ_ALL ∨ num = NC_GET_REQ_ALL ∨ num = NC_PUT_REQ_ALL) ∧
-  ¬ (nc.get.numReqs = 0 ∧ num = (nc.put.numLead : Int)) ∧
-  ¬ (nc.put.numReqs = 0 ∧ num = (nc.get.numLead : Int)) ∧
-  ¬ (num = ((nc.put.numLead + nc.get.numLead : Nat) : Int) ∧ st.isNone)
+  ¬ sc1 V nc num ids ∧ ¬ sc2 V nc num ids ∧ ¬ sc3 V nc num ids st
 
 theorem applyMark_none (v : List Entry) : v.map (applyMark (fun _ => none)) = v := by
   induction v with
@@ -291,6 +289,88 @@ theorem flagged_map_applyMark (mk : Int → Option (Option Nat)) (v : List Entry
       have : applyMark mk e = flagE s e := by unfold applyMark; rw [hm]
       simp [this, flagE, ih']
 
+/-- the record count the blocking calls would leave: the maximum over the completed puts -/
+def maxRecOf (numrecs : Int) (done : List Lead) : Int :=
+  done.foldl (fun acc l => if acc < l.c.maxRec then l.c.maxRec else acc) numrecs
+
+theorem maxRecOf_congr (n : Int) (A B : List Lead) (h : A.map (fun l => l.c) = B.map (fun l => l.c)) :
+    maxRecOf n A = maxRecOf n B := by
+  unfold maxRecOf
+  induction A generalizing B n with
+  | nil => cases B with | nil => rfl | cons _ _ => simp at h
+  | cons a as ih =>
+    cases B with
+    | nil => simp at h
+    | cons b bs =>
+      simp only [List.map_cons, List.cons.injEq] at h
+      simp only [List.foldl_cons, h.1]
+      exact ih _ bs h.2
+
+theorem maxRecOf_ge (L : List Lead) : ∀ n, n ≤ maxRecOf n L := by
+  induction L with
+  | nil => intro n; exact Int.le_refl _
+  | cons l ls ih =>
+    intro n
+    simp only [maxRecOf, List.foldl_cons]
+    split
+    · have := ih l.c.maxRec; unfold maxRecOf at this; omega
+    · exact ih n
+
+/-- the scan of req_commit over a lead list that is not longer than the bound: the maximum over
+    the flagged leads -/
+theorem newNumrecs_eq (n : Int) (k : Nat) (L : List Lead) (hk : L.length ≤ k) (h0 : 0 ≤ n) :
+    newNumrecs n k L = maxRecOf n (L.filter (fun l => l.c.toFree)) ∧
+    n ≤ maxRecOf n (L.filter (fun l => l.c.toFree)) := by
+  refine ⟨?_, maxRecOf_ge _ n⟩
+  unfold newNumrecs
+  rw [List.take_of_length_le hk]
+  unfold maxRecOf
+  induction L generalizing n with
+  | nil => rfl
+  | cons l ls ih =>
+    simp only [List.foldl_cons, List.filter_cons]
+    by_cases hf : l.c.toFree = true
+    · simp only [hf, not_true_eq_false, or_false, if_true, List.foldl_cons]
+      by_cases hm : l.c.maxRec < 0
+      · have : ¬ n < l.c.maxRec := by omega
+        simp only [hm, if_true, this, if_false]
+        exact ih n (by simp at hk; omega) h0
+      · simp only [hm, if_false]
+        by_cases h2 : n < l.c.maxRec
+        · simp only [h2, if_true]; exact ih _ (by simp at hk; omega) (by omega)
+        · simp only [h2, if_false]; exact ih n (by simp at hk; omega) h0
+    · have hf' : l.c.toFree = false := by simpa using hf
+      simp only [hf', Bool.false_eq_true, not_false_eq_true, or_true, if_true, if_false]
+      exact ih n (by simp at hk; omega) h0
+
+theorem canonLeads_flagged_core : ∀ (o : Nat) (m : List Entry),
+    ((canonLeads o m).filter (fun l => l.c.toFree)).map (fun l => l.c) = (flagged m).map (fun x => x.c) := by
+  intro o m
+  induction m generalizing o with
+  | nil => rfl
+  | cons e es ih =>
+    by_cases h : e.c.toFree = true
+    · simp [canonLeads, flagged, List.filter_cons, h]; simpa [flagged] using ih _
+    · have h' : e.c.toFree = false := by simpa using h
+      simp [canonLeads, flagged, List.filter_cons, h']; simpa [flagged] using ih _
+
+theorem reoff_flagged_core : ∀ (k o : Nat) (m : List Entry),
+    ((reoff k o m).filter (fun l => l.c.toFree)).map (fun l => l.c) = (flagged m).map (fun x => x.c) := by
+  intro k o m
+  induction m generalizing k o with
+  | nil => rfl
+  | cons e es ih =>
+    by_cases h : e.c.toFree = true
+    · simp [reoff, flagged, List.filter_cons, h]; simpa [flagged] using ih _ _
+    · have h' : e.c.toFree = false := by simpa using h
+      simp [reoff, flagged, List.filter_cons, h']; simpa [flagged] using ih _ _
+
+theorem reoff_length : ∀ (k o : Nat) (m : List Entry), (reoff k o m).length = m.length := by
+  intro k o m
+  induction m generalizing k o with
+  | nil => rfl
+  | cons e es ih => by_cases h : e.c.toFree = true <;> simp [reoff, h, ih]
+
 /-- the state after a successful wait on an explicit id list that takes the subset path -/
 theorem wait_subset (nc0 : NC) (vP vG : List Entry)
     (hP : Rep nc0.put vP) (hG : Rep nc0.get vG)
@@ -298,16 +378,18 @@ theorem wait_subset (nc0 : NC) (vP vG : List Entry)
     (hneP : NoEmpty vP) (hneG : NoEmpty vG)
     (hparP : ∀ e ∈ vP, e.c.id % 2 = 0 ∧ e.c.id ≠ NC_REQ_NULL)
     (hparG : ∀ e ∈ vG, ¬ e.c.id % 2 = 0 ∧ e.c.id ≠ NC_REQ_NULL)
-    (num : Int) (ids : List Int) (st : Option (List Int))
-    (hsub : SubsetPath nc0 num st) (herr : (wait nc0 num ids st).err = NC_NOERR) :
-    Rep (wait nc0 num ids st).nc.put (vP.filter (fun e => decide (e.c.id ∉ ids))) ∧
-    Rep (wait nc0 num ids st).nc.get (vG.filter (fun e => decide (e.c.id ∉ ids))) ∧
-    (wait nc0 num ids st).ids = nullIds ids ∧
-    (wait nc0 num ids st).donePut.map (fun l => l.c.id) = (vP.filter (fun e => decide (e.c.id ∈ ids))).map (fun e => e.c.id) ∧
-    (wait nc0 num ids st).doneGet.map (fun l => l.c.id) = (vG.filter (fun e => decide (e.c.id ∈ ids))).map (fun e => e.c.id) ∧
-    (∀ l ∈ (wait nc0 num ids st).donePut ++ (wait nc0 num ids st).doneGet, l.c.toFree = true ∧
+    (num : Int) (ids : List Int) (st : Option (List Int)) (V : Variant)
+    (hsub : SubsetPath nc0 num ids st V) (herr : (wait nc0 num ids st V).err = NC_NOERR) :
+    Rep (wait nc0 num ids st V).nc.put (vP.filter (fun e => decide (e.c.id ∉ ids))) ∧
+    Rep (wait nc0 num ids st V).nc.get (vG.filter (fun e => decide (e.c.id ∉ ids))) ∧
+    (wait nc0 num ids st V).ids = nullIds ids ∧
+    (wait nc0 num ids st V).donePut.map (fun l => l.c.id) = (vP.filter (fun e => decide (e.c.id ∈ ids))).map (fun e => e.c.id) ∧
+    (wait nc0 num ids st V).doneGet.map (fun l => l.c.id) = (vG.filter (fun e => decide (e.c.id ∈ ids))).map (fun e => e.c.id) ∧
+    (∀ l ∈ (wait nc0 num ids st V).donePut ++ (wait nc0 num ids st V).doneGet, l.c.toFree = true ∧
         (st.isSome = true → ∃ i, l.c.status = some i ∧ ids[i]? = some l.c.id)) ∧
-    (wait nc0 num ids st).nc.put.maxId = nc0.put.maxId ∧ (wait nc0 num ids st).nc.get.maxId = nc0.get.maxId := by
+    (wait nc0 num ids st V).nc.put.maxId = nc0.put.maxId ∧ (wait nc0 num ids st V).nc.get.maxId = nc0.get.maxId ∧
+    (V.numrecsAllLeads = true → 0 ≤ nc0.numrecs →
+      (wait nc0 num ids st V).nc.numrecs = maxRecOf nc0.numrecs (wait nc0 num ids st V).donePut) := by
   obtain ⟨hs0, hs1, hs2, hs3⟩ := hsub
   have hbase : MI nc0 vP vG st.isSome [] { nc := nc0, ids := ids, st := st } := by
     refine ⟨fun _ => none, fun _ => none, ?_, ?_, rfl, ?_, ?_, ?_, ?_, rfl, ?_, ?_, ?_⟩
@@ -323,9 +405,13 @@ theorem wait_subset (nc0 : NC) (vP vG : List Entry)
   have hmi := markLoop_MI nc0 vP vG st.isSome hcP hdP hcG hdG ids 0 [] _ hbase
   simp only [List.nil_append] at hmi
   -- unfold wait / extract along the subset path
-  have hext : extract nc0 num ids st =
+  have hext : extract nc0 num ids st V =
       (let e := markLoop 0 ids { nc := nc0, ids := ids, st := st }
-       if e.err ≠ NC_NOERR then e
+       if e.err ≠ NC_NOERR then
+         (if V.clearOnRefusal then
+            { e with nc := { e.nc with put := { e.nc.put with lead := clearMarks e.nc.put.lead },
+                                       get := { e.nc.get with lead := clearMarks e.nc.get.lead } } }
+          else e)
        else
          let c := copyLoop e.nc ids
          { e with ids := c.1, putList := c.2.1, getList := c.2.2,
@@ -337,8 +423,9 @@ theorem wait_subset (nc0 : NC) (vP vG : List Entry)
     by_cases h : e.err = NC_NOERR
     · exact h
     · exfalso
-      have : (wait nc0 num ids st).err = e.err := by
-        unfold wait; rw [hext]; simp [h]
+      have : (wait nc0 num ids st V).err = e.err := by
+        unfold wait; rw [hext]
+        by_cases hv : V.clearOnRefusal = true <;> simp [h, hv]
       rw [this] at herr; exact h herr
   obtain ⟨mkP, mkG, hput, hget, hnr, hwl, hw, hrl, hr, hst, hU2P, hU2G, hU3⟩ := hmi
   have hU3' := hU3 he0
@@ -422,25 +509,75 @@ theorem wait_subset (nc0 : NC) (vP vG : List Entry)
       · unfold applyMark; rw [hxid, hs]; rfl
       · rw [applyMark_id]; exact hxid
   -- compute `wait`
-  have hwait : wait nc0 num ids st =
-      { nc := { put := ((e.nc.put.compact e.numW).cleanup e.numWLead).1,
-                get := ((e.nc.get.compact e.numR).cleanup e.numRLead).1,
-                numrecs := (if e.numW > 0 ∧ nc0.numrecs < newNumrecs nc0.numrecs e.numWLead (e.nc.put.compact e.numW).lead
-                            then newNumrecs nc0.numrecs e.numWLead (e.nc.put.compact e.numW).lead else nc0.numrecs) },
-        ids := (copyLoop e.nc ids).1, st := e.st, err := NC_NOERR,
-        ioPut := (copyLoop e.nc ids).2.1, ioGet := (copyLoop e.nc ids).2.2,
-        donePut := ((e.nc.put.compact e.numW).cleanup e.numWLead).2,
-        doneGet := ((e.nc.get.compact e.numR).cleanup e.numRLead).2 } := by
-    unfold wait
-    rw [hext]
-    simp [he0]
-  rw [hwait]
-  simp only
+  have hw_put : (wait nc0 num ids st V).nc.put = ((e.nc.put.compact e.numW).cleanup e.numWLead).1 := by
+    unfold wait; rw [hext]; simp [he0]
+  have hw_get : (wait nc0 num ids st V).nc.get = ((e.nc.get.compact e.numR).cleanup e.numRLead).1 := by
+    unfold wait; rw [hext]; simp [he0]
+  have hw_ids : (wait nc0 num ids st V).ids = (copyLoop e.nc ids).1 := by
+    unfold wait; rw [hext]; simp [he0]
+  have hw_dp : (wait nc0 num ids st V).donePut = ((e.nc.put.compact e.numW).cleanup e.numWLead).2 := by
+    unfold wait; rw [hext]; simp [he0]
+  have hw_dg : (wait nc0 num ids st V).doneGet = ((e.nc.get.compact e.numR).cleanup e.numRLead).2 := by
+    unfold wait; rw [hext]; simp [he0]
+  have hw_nr : V.numrecsAllLeads = true → (wait nc0 num ids st V).nc.numrecs =
+      (if e.numW > 0 ∧ nc0.numrecs < newNumrecs nc0.numrecs nc0.put.numLead (e.nc.put.compact e.numW).lead
+       then newNumrecs nc0.numrecs nc0.put.numLead (e.nc.put.compact e.numW).lead else nc0.numrecs) := by
+    intro hv
+    have hnl : (e.nc.put.compact e.numW).numLead = nc0.put.numLead := by
+      unfold Q.compact; rw [hput]; split <;> rfl
+    unfold wait; rw [hext]; simp [he0, hv, hnl]
+  have hnumrecs : V.numrecsAllLeads = true → 0 ≤ nc0.numrecs →
+      (wait nc0 num ids st V).nc.numrecs = maxRecOf nc0.numrecs ((e.nc.put.compact e.numW).cleanup e.numWLead).2 := by
+    intro hv h0
+    rw [hw_nr hv, hCP.2]
+    -- the lead list scanned by req_commit: canonical or re-offset, same cores in the same order
+    have hcore : ((e.nc.put.compact e.numW).lead.filter (fun l => l.c.toFree)).map (fun l => l.c)
+        = (flagged (vP.map (applyMark mkP))).map (fun x => x.c) := by
+      unfold Q.compact
+      split
+      · rw [hput]; exact canonLeads_flagged_core 0 _
+      · have hcg := compactGo_canon (vP.map (applyMark mkP)) [] [] 0 0
+        simp only [List.nil_append, List.append_nil, List.length_nil] at hcg
+        simp only [hRP.lead, hRP.nonlead, hcg]
+        exact reoff_flagged_core 0 0 _
+    have hlen : (e.nc.put.compact e.numW).lead.length ≤ nc0.put.numLead := by
+      have : (e.nc.put.compact e.numW).lead.length = vP.length := by
+        unfold Q.compact
+        split
+        · rw [hput]; simp
+        · have hcg := compactGo_canon (vP.map (applyMark mkP)) [] [] 0 0
+          simp only [List.nil_append, List.append_nil, List.length_nil] at hcg
+          simp only [hRP.lead, hRP.nonlead, hcg, reoff_length]; simp
+      rw [this, hP.numLead]; exact Nat.le_refl _
+    have hnn := newNumrecs_eq nc0.numrecs nc0.put.numLead _ hlen h0
+    rw [hnn.1]
+    have hmr : maxRecOf nc0.numrecs ((e.nc.put.compact e.numW).lead.filter (fun l => l.c.toFree))
+        = maxRecOf nc0.numrecs (flaggedLeads 0 (vP.map (applyMark mkP))) := by
+      apply maxRecOf_congr
+      rw [hcore, flaggedLeads_core]
+    rw [hmr]
+    by_cases hw0 : e.numW > 0
+    · have := hnn.2
+      rw [hmr] at this
+      split
+      · rfl
+      · rename_i hc
+        have : ¬ nc0.numrecs < maxRecOf nc0.numrecs (flaggedLeads 0 (vP.map (applyMark mkP))) := fun hh => hc ⟨hw0, hh⟩
+        omega
+    · have hz : total (flagged (vP.map (applyMark mkP))) = 0 := by rw [← hw]; omega
+      have hf := flagged_nil_of_total _ hneP' hz
+      have : flaggedLeads 0 (vP.map (applyMark mkP)) = [] := by
+        have h1 := flaggedLeads_core 0 (vP.map (applyMark mkP))
+        rw [hf] at h1
+        simpa using h1
+      rw [this]
+      simp [maxRecOf, hw0]
+  rw [hw_put, hw_get, hw_ids, hw_dp, hw_dg]
   have hmaxP : ((e.nc.put.compact e.numW).cleanup e.numWLead).1.maxId = nc0.put.maxId := by
     unfold Q.cleanup Q.compact; rw [hput]; split <;> split <;> rfl
   have hmaxG : ((e.nc.get.compact e.numR).cleanup e.numRLead).1.maxId = nc0.get.maxId := by
     unfold Q.cleanup Q.compact; rw [hget]; split <;> split <;> rfl
-  refine ⟨?_, ?_, hcopy, ?_, ?_, ?_, hmaxP, hmaxG⟩
+  refine ⟨?_, ?_, hcopy, ?_, ?_, ?_, hmaxP, hmaxG, hnumrecs⟩
   · rw [← hkP]; exact hCP.1
   · rw [← hkG]; exact hCG.1
   · rw [hCP.2]
